@@ -98,11 +98,11 @@ def check(run: Run):
     run.absorb(res)
     run.notes.append("replay per policy: %s" % json.dumps(res.get("extra", {}).get("per_policy")))
     # 3. code -> spec: long recorded runs, incl. tinylfu on both sides of its thresholds
-    L = 300 if q else 1500
+    L = 400 if q else 2000
     R = 2 if q else 6
     cfgs = []
     for pol in ["lru", "lfu", "slru", "tinylfu"]:
-        for cap in ([1, 2, 5, 99, 100, 101] if q else [1, 2, 3, 5, 8, 20, 99, 100, 101, 200]):
+        for cap in ([1, 2, 3, 5, 6, 8, 10, 20, 99, 100, 101] if q else [1, 2, 3, 4, 5, 6, 7, 8, 10, 12, 20, 50, 99, 100, 101, 200, 300]):
             for exp in ([0, 3] if cap in (2, 100) or not q else [0]):
                 for sync in (True, False):
                     cfgs.append({"cap": cap, "policy": pol, "expiry": exp, "sync": sync,
